@@ -210,6 +210,7 @@ def source_untouched(o, n):
 
 @contract(f"{M}.discard_start", properties=("C18", "C01", "C07"))
 class _:
+    escalate = ("C18", "C07")
     params = {"self": OR}
     result = NONE
 
@@ -255,6 +256,7 @@ class _:
 
 @contract(f"{M}.discard_end", properties=("C18", "C01", "C07"))
 class _:
+    escalate = ("C18", "C07")
     params = {"self": OR}
     result = NONE
 
